@@ -274,6 +274,10 @@ def run(chk, prog):
                   % (af["qname"].split("::")[-2], c.split("::")[-1], sorted(tracked_reads)[:6], "" if not late else ": " + "; ".join("%s by %s" % (k_, sorted(v_)) for k_, v_ in sorted(late.items()))),
                   "%s::apply:changes-tracking-state-after-transport:%s" % (af["qname"].split("::")[-2], sorted(late)))
     chk.floor("R5-apply-overriders", n5, 4)
+    # ---- R6: charge and particle share the zero of the displacement: a zero offset leaves both where they are (the centre updateSM adds is
+    # the one apply subtracts, for even and odd grid sizes: decided under C01 R2; re-evaluated here)
+    from .common import reeval
+    reeval(chk, prog, "C01", lambda i: i["rule"] == "R2" and "KickMap" in i["site"], "R6", "R6-kick-centre", 6)
     chk.notes.append("C15: clamping of every assigned coordinate on every CFG path of every applyTo overrider reachable from main, direction agreement of "
                      "particle and grid displacement, damping fixed point. NOT decided: centroid coincidence, ensemble statistics.")
 
